@@ -3,22 +3,37 @@ From Bfe Require Import lib.Val model.Prison.
 Import ListNotations.
 Open Scope Z_scope.
 
-(* input : [VZ period; VZ stay; VZ threshold; VL [[VZ key; VZ time] ...]]   (times non-decreasing, key < 0 = unsignable)
-   output: VL of 0/1 verdicts of recordAndCheck, one per request *)
+(* input : [VZ period; VZ stay; VZ threshold; VZ accessDictSize; VZ prisonDictSize; VL [[VZ key; VZ time] ...]]
+           times non-decreasing; key -1 = unsignable request; key -2 = rule reload, second field = new dictionary sizes
+   output: VL of 0/1 verdicts of recordAndCheck, one per op (0 for a reload) *)
 Definition dec_op (v : val) : option (Z * Z) :=
   match v with VL [VZ k; VZ t] => Some (k, t) | _ => None end.
-Definition dec_C53 (v : val) : option (cfg * list (Z * Z)) :=
+Record inp := { in_cfg : cfg; in_acap : Z; in_pcap : Z; in_ops : list (Z * Z) }.
+Definition dec_C53 (v : val) : option inp :=
   match v with
-  | VL [VZ p; VZ s; VZ th; VL ops] =>
+  | VL [VZ p; VZ s; VZ th; VZ ac; VZ pc; VL ops] =>
     match all_some (map dec_op ops) with
-    | Some ops' => Some ({| c_period := p; c_stay := s; c_threshold := th |}, ops')
+    | Some ops' => Some {| in_cfg := {| c_period := p; c_stay := s; c_threshold := th |}; in_acap := ac; in_pcap := pc; in_ops := ops' |}
     | None => None
     end
   | _ => None
   end.
+(* distinct request keys *)
+Fixpoint distinct_keys (ops : list (Z * Z)) (seen : list Z) : list Z :=
+  match ops with
+  | [] => seen
+  | (k, _) :: r => if (k <? 0) || existsb (Z.eqb k) seen then distinct_keys r seen else distinct_keys r (k :: seen)
+  end.
+(* no dictionary can ever overflow: the number of distinct keys does not exceed either (initial) capacity *)
+Definition no_evict (x : inp) : bool :=
+  let n := Z.of_nat (length (distinct_keys (in_ops x) [])) in (n <=? in_acap x) && (n <=? in_pcap x).
+(* The model: without possible eviction the dictionaries are maps (run_ops); otherwise the LRU lists (run_lru). *)
+Definition run_inp (x : inp) : list bool :=
+  if no_evict x then run_ops (in_cfg x) empty_state (in_ops x)
+  else run_lru (in_cfg x) {| l_acc := []; l_pr := []; l_acap := in_acap x; l_pcap := in_pcap x |} (in_ops x).
 Definition run_C53 (v : val) : val :=
   match dec_C53 v with
-  | Some (c, ops) => VL (map vbool (run_ops c empty_state ops))
+  | Some x => VL (map vbool (run_inp x))
   | None => VErr 0
   end.
 Definition agree_C53 (i o : val) : bool := val_eqb (run_C53 i) o.
@@ -63,9 +78,30 @@ Fixpoint list_bool_eqb (a b : list bool) : bool :=
   | x :: a', y :: b' => Bool.eqb x y && list_bool_eqb a' b'
   | _, _ => false
   end.
+(* With possible evictions a key may be forgotten; what must still hold is that nobody is denied without cause:
+   every denied request (key k, time t) is preceded by a window [s, s+period], s a request time of k, that already
+   holds more than threshold requests of k (this one included), and t is before s + period + stay. *)
+Fixpoint count_key (k a b : Z) (ops : list (Z * Z)) : Z :=
+  match ops with
+  | [] => 0
+  | (k', t) :: r => (if (k' =? k) && (a <=? t) && (t <=? b) then 1 else 0) + count_key k a b r
+  end.
+Definition denial_justified (c : cfg) (sofar : list (Z * Z)) (k t : Z) : bool :=
+  existsb (fun o => (fst o =? k) && (c_threshold c <? count_key k (snd o) (snd o + c_period c) sofar)
+                    && (t <? snd o + c_period c + c_stay c)) sofar.
+Fixpoint all_justified (c : cfg) (past : list (Z * Z)) (ops : list (Z * Z)) (ds : list bool) : bool :=
+  match ops, ds with
+  | [], [] => true
+  | (k, t) :: r, d :: ds' =>
+    let sofar := past ++ [(k, t)] in
+    (if d then (0 <=? k) && denial_justified c sofar k t else true) && all_justified c sofar r ds'
+  | _, _ => false
+  end.
 Definition prop_C53 (i o : val) : bool :=
   match dec_C53 i, bools_of o with
-  | Some (c, ops), Some ds => list_bool_eqb (spec_run c (fun _ => k0) ops) ds
+  | Some x, Some ds =>
+    if no_evict x then list_bool_eqb (spec_run (in_cfg x) (fun _ => k0) (in_ops x)) ds
+    else all_justified (in_cfg x) [] (in_ops x) ds
   | _, _ => false
   end.
 Definition kf_C53 (i : val) : Z := 0.
